@@ -71,8 +71,9 @@ STATEMENT_STATUS: Dict[str, str] = {
     "C09_find_neighbors_order": "proved: find_neighbors lists neighbours in line order (grid independent; after fix 014f62d)",
     "C09_scale_textlines": "proved: group_textlines commutes with scaling as an equation (boxes, member order)",
     "C09_scale_analyze_none": "proved: the WHOLE analysis commutes with scaling when boxes_flow is None",
-    "C09_scale_hierarchy_partial": "partial: with numeric boxes_flow the heap loop of group_textboxes is not simulated in "
-                                   "Lean (dist / keys / find are proved scale invariant); tested by the scale runs",
+    "C09_scale_textboxes": "proved: group_textboxes performs the same merges on the scaled boxes (heap-loop simulation)",
+    "C09_scale": "proved: the WHOLE analysis commutes with scaling for every s > 0 and every LAParams (heap order = "
+                 "tuple order with creation numbers for id())",
 }
 
 CLASSIFIERS = {
